@@ -80,6 +80,17 @@ class Facts:
         for fn in sorted(os.listdir(self.pkgdir)):
             if fn.endswith('.py'):
                 self._load(os.path.join(self.pkgdir, fn), PKG + '.' + fn[:-3] if fn != '__init__.py' else PKG)
+        # sub-packages of the package's own code (the vendored ply/ and the generated gen/ tables are not)
+        for root, dirs, files in os.walk(self.pkgdir):
+            dirs[:] = sorted(d for d in dirs if d not in ('ply', 'gen', '__pycache__') and not d.startswith('.'))
+            if root == self.pkgdir or '__init__.py' not in files:
+                if root != self.pkgdir:
+                    dirs[:] = []
+                continue
+            pk = PKG + '.' + os.path.relpath(root, self.pkgdir).replace(os.sep, '.')
+            for fn in sorted(files):
+                if fn.endswith('.py'):
+                    self._load(os.path.join(root, fn), pk + '.' + fn[:-3] if fn != '__init__.py' else pk)
         plydir = os.path.join(self.pkgdir, 'ply')
         for fn in ('lex.py', 'yacc.py'):
             p = os.path.join(plydir, fn)
@@ -112,10 +123,13 @@ class Facts:
                 if st.level:
                     parts = name.split('.')
                     # a module's package is its parent
-                    pk = parts[:-1] if name != PKG else parts
+                    pk = parts[:-1] if not path.endswith('__init__.py') else parts
                     pk = pk[:len(pk) - (st.level - 1)] if st.level > 1 else pk
                     base = '.'.join(pk + ([base] if base else []))
                 for a in st.names:
+                    if a.name == '*':
+                        m.__dict__.setdefault('star_imports', []).append(base)      # from X import *
+                        continue
                     m.imports[a.asname or a.name] = base + '.' + a.name
             elif isinstance(st, (ast.FunctionDef, ast.AsyncFunctionDef, ast.ClassDef)):
                 m.defs[st.name] = st
@@ -210,6 +224,18 @@ class Facts:
             return ('modvar', m.name + '.' + name)
         if name in m.imports:
             return self.resolve_dotted(m.imports[name], _seen)
+        for base in m.__dict__.get('star_imports', []):
+            # from X import *: the public names of X (its __all__ when it has one); a package exports its __init__'s names
+            sm = self.modules.get(base)
+            if sm is None or name.startswith('_') and '__all__' not in sm.assigns:
+                continue
+            allv = sm.assigns.get('__all__')
+            if allv and len(allv) == 1 and isinstance(allv[0], (ast.List, ast.Tuple)) and all(isinstance(x, ast.Constant) for x in allv[0].elts):
+                if name not in [x.value for x in allv[0].elts]:
+                    continue
+            r = self.resolve_name(sm, name, _seen)
+            if r[0] not in ('unbound', 'builtin'):
+                return r
         if hasattr(builtins, name):
             return ('builtin', name)
         return ('unbound', name)
